@@ -1,5 +1,6 @@
 //! Helper for the CLI-level checks (C15, C33, ...):
 //!   genrun-tool variants --out F            dump the backend/variant table as JSON
+//!   genrun-tool validate FILE               exit 0 iff FILE parses and encodes (witgen's notion of a valid world)
 //!   genrun-tool worlds --seed S --n N --profile P --dir D --out F
 //!        write N random *valid* worlds (w<i>.wit) + an index (tags, shape, class)
 //!        profiles: large (many interfaces/types, half multi-package), mixed (feature classes in turn)
@@ -110,8 +111,19 @@ fn main() {
             }
             std::fs::write(args.out(), serde_json::to_string(&json!({"worlds": index, "discarded_invalid": discarded, "gave_up": gave_up})).unwrap()).unwrap();
         }
+        "validate" => {
+            // exit 0 iff the file is a valid world in the sense of witgen::generate_valid
+            let text = std::fs::read_to_string(args.free.get(1).expect("file")).expect("read");
+            match witgen::parse(&text).and_then(|(r, id)| witgen::check_encodable(&r, id)) {
+                Ok(()) => {}
+                Err(e) => {
+                    eprintln!("invalid: {e:#}");
+                    std::process::exit(1);
+                }
+            }
+        }
         _ => {
-            eprintln!("usage: genrun-tool variants|worlds ...");
+            eprintln!("usage: genrun-tool variants|worlds|validate ...");
             std::process::exit(2);
         }
     }
